@@ -21,7 +21,7 @@ ASSUMPTIONS = ["(non-empty list, non-empty list) selector pairs are not compared
                "lists of sample indices are generated on uncompressed files only (mtscomp documents no support)",
                "float32 multiplication by the reader's own per-channel vector is repeated in the oracle; the vector "
                "itself is checked against the independent calibration within rtol 1e-6"]
-BUDGET = {"quick": 1200, "thorough": 40000}
+BUDGET = {"quick": 1200, "thorough": 80000}
 SHRINK = {"quick": True, "thorough": True}
 
 
